@@ -83,6 +83,15 @@ def step (toks : List String) : String :=
     | some (pr, [m, a, lam, k, h, ix, iy]) =>
       partStr (fromPal vr (fl G) pr (fl m) (fl a) (fl lam) (fl k) (fl h) (fl ix) (fl iy))
     | _ => "bad-op"
+  | "p2pal" :: G :: rest =>
+    match partOf rest with
+    | some (p, rest2) =>
+      match partOf rest2 with
+      | some (pr, []) =>
+        let o := particleToPal (fl G) p pr
+        hxs [o.a, o.lambda, o.k, o.h, o.ix, o.iy]
+      | _ => "bad-op"
+    | none => "bad-op"
   | "fmt" :: G :: t :: rest =>
     match partOf rest with
     | some (com, kv) =>
